@@ -234,6 +234,41 @@ func VC_C09_v2i() {
 	verifAssert(out[2].(*int) == p, "C09.v2i.pointer-unaltered")
 	verifAssert(out[3].(int) == x, "C09.v2i.int-unaltered")
 	verifAssert(out[4] != nil, "C09.v2i.error-unaltered")
+	// an interface-typed result that holds a zero value of its concrete type is not a nil
+	// interface: it comes back boxed, dynamic type intact
+	var te *vErr
+	boxed := []interface{}{0, "", false, vS1{}, te}
+	k := verifChoice("boxedZero", 5)
+	bv, rej, _ := vOne(boxed[k], vAnyT)
+	verifAssert(!rej, "C09.v2i.boxed-zero-accepted")
+	if !rej {
+		o := V2I([]reflect.Value{bv}, []reflect.Type{vAnyT})
+		verifAssert(o[0] != nil, "C09.v2i.boxed-zero-value-is-not-nil")
+		switch k {
+		case 0:
+			n, ok := o[0].(int)
+			verifAssert(ok && n == 0, "C09.v2i.boxed-zero-keeps-dynamic-type")
+		case 1:
+			s, ok := o[0].(string)
+			verifAssert(ok && s == "", "C09.v2i.boxed-zero-keeps-dynamic-type")
+		case 2:
+			bb, ok := o[0].(bool)
+			verifAssert(ok && !bb, "C09.v2i.boxed-zero-keeps-dynamic-type")
+		case 3:
+			st, ok := o[0].(vS1)
+			verifAssert(ok && st == vS1{}, "C09.v2i.boxed-zero-keeps-dynamic-type")
+		case 4:
+			pe, ok := o[0].(*vErr)
+			verifAssert(ok && pe == nil, "C09.v2i.boxed-zero-keeps-dynamic-type")
+		}
+	}
+	// the same for an error result holding a typed nil pointer
+	ev, rej2, _ := vOne(te, vErrorT)
+	verifAssert(!rej2, "C09.v2i.typed-nil-error-accepted")
+	if !rej2 {
+		o := V2I([]reflect.Value{ev}, []reflect.Type{vErrorT})
+		verifAssert(o[0] != nil, "C09.v2i.typed-nil-error-is-not-nil")
+	}
 	verifReached("C09.v2i")
 }
 
